@@ -257,7 +257,10 @@ def parseScript (l h g : String) : World.Script :=
     if a == "!" then none else match a.splitOn ":" with
       | [n, hh] => n.toNat?.map fun n => (n, hh)
       | _ => none
-  let hs := (splitList h ",").map fun a => if a == "!" then none else some a
+  let hs := (splitList h ",").filterMap fun a =>
+    match a.splitOn "=" with
+    | [n, v] => n.toNat?.map fun n => (n, if v == "!" then none else some v)
+    | _ => none
   let gs := (splitList g ";").filterMap fun e =>
     match e.splitOn "=" with
     | [key, body] =>
